@@ -11,6 +11,7 @@ import json
 import random
 
 from .. import memnet, tlc, util
+from .c03 import FaultLayer
 from .. import sched as S
 
 STRADDLE_CFG = """INIT SInit
@@ -121,6 +122,8 @@ def run_scripts(scripts, servertype, settings, unit=1):
             def connect(p):
                 if p not in proxies:
                     proxies[p] = P.Proxy(uri)
+                    # (every other script's proxies are told to retry failed calls; a fetch is not something to be repeated)
+                    proxies[p]._pyroMaxRetries = 2 if len(traces) % 2 else 0
                 if proxies[p]._pyroConnection is None:
                     proxies[p]._pyroReconnect(tries=1)
                     ninc[0] += 1
@@ -172,6 +175,36 @@ def run_scripts(scripts, servertype, settings, unit=1):
                             sc.quiesce()
                             tr.append({"e": "Disconnect", "c": conn[p], "now": now()})
                             broken[p] = True
+                            hk()
+                    elif a == "losenext":
+                        it, p, done = its.get(step["i"], (None, 0, True))
+                        if done or it is None or proxies[p]._pyroConnection is None or broken.get(p):
+                            continue
+                        i = step["i"]
+                        layer = FaultLayer()
+                        memnet.NET.hook = layer
+                        layer.arm("lose")
+                        try:
+                            next(it)
+                            out = "item"
+                        except StopIteration:
+                            out = "stop"
+                        except (S.Hang, S.SchedAbort):
+                            raise
+                        except errors.CommunicationError:
+                            out = "commerror"
+                        except Exception:
+                            out = "other"
+                        finally:
+                            layer.disarm()
+                            memnet.NET.hook = None
+                        tr.append({"e": "LostNext", "i": i, "c": conn[p], "out": out, "now": now()})
+                        hk()
+                        if proxies[p]._pyroConnection is None:
+                            # the client has dropped its connection because of the error
+                            sc.quiesce()
+                            tr.append({"e": "Disconnect", "c": conn[p], "now": now()})
+                            conn[p] = 0
                             hk()
                     elif a == "next":
                         it, p, done = its.get(step["i"], (None, 0, True))
@@ -431,10 +464,12 @@ def run(ctx):
         for e in tr:
             if e["e"] == "Next":
                 outs[e["out"]] = outs.get(e["out"], 0) + 1
+            elif e["e"] == "LostNext":
+                outs["lost"] = outs.get("lost", 0) + 1
     for tr, m, v in zip(traces, metas, verdicts):
         if v:
             ctx.violation("%s [lifetime=%s linger=%s server=%s]" % (v, m["settings"][0], m["settings"][1], m["server"]), {"scenario": m, "trace": tr})
-    if not ctx.violations and not all(outs.get(k, 0) > 10 for k in ("item", "stop", "raise", "gone")):
+    if not ctx.violations and not all(outs.get(k, 0) > 10 for k in ("item", "stop", "raise", "gone", "lost")):
         raise util.MachineryError("vacuity: fetch outcomes seen %s" % outs)
     ctx.extra["fetch_outcomes"] = outs
 
